@@ -10,6 +10,7 @@
     `fraction × volume` of every component in every real well.
 -/
 import Robotools.Props.C01
+import Robotools.Props.C01Dist
 import Robotools.Proofs.CtorGood
 namespace Robotools.C05
 open Robotools RP C03
@@ -48,6 +49,37 @@ theorem history_ideal_mixture (w₀ : World) (hwf : WF w₀) (hgood : Amt.Good w
         ∃ (R : RLab) (wl : RWell), st.labs[l]? = some R ∧ R.wells[i]? = some wl ∧ wl.vol = L.vol i
           ∧ ∀ k, amtOf wl.amts k = amount L i k := by
   obtain ⟨⟨st, hrun, hM, hA⟩, _⟩ := C01.replay_composition w₀ hwf hgood h0 ops hops hok
+  exact ⟨st, hrun, fun l L hL i hi => C01.amount_well hM hA l L hL i hi⟩
+
+/-- The same two statements for histories that also contain `distribute` calls (positive volume, static side
+    conditions `C01D.DistOKI`; on an EVO: `C01D.traceableEvo`, nothing assumed about the destination wells). -/
+theorem history_normalised_dist (w₀ : World) (hwf : WF w₀) (hgood : Amt.Good w₀) (h0 : w₀.recs = [])
+    (ops : List Op) (hops : ∀ op ∈ ops, C01D.traceableI (info w₀) w₀.cfg.dev op)
+    (hok : (w₀.run ops).2 = none) :
+    ∀ L ∈ (w₀.run ops).1.labs, CompValid L ∧ ∀ i, i < L.vols.length →
+      (0 < L.vol i → fracSum L i = 1) ∧ ∀ k, 0 ≤ L.frac i k ∧ L.frac i k ≤ 1 := by
+  intro L hL
+  obtain ⟨_, hc, hm⟩ := (C01D.replay_composition_dist w₀ hwf hgood h0 ops hops hok).2 L hL
+  refine ⟨hc, fun i hi => ⟨fun hpos => ?_, fun k => ?_⟩⟩
+  · rcases hm i hi with h1 | ⟨_, h0'⟩
+    · exact h1
+    · rw [h0'] at hpos; exact absurd hpos (lt_irrefl _)
+  · rw [Mix.frac_eq]
+    refine ⟨Mix.fracC_nonneg _ _ _ hc.nonneg, ?_⟩
+    have hle := Mix.fracC_le_colSum L.comp i k hc.nonneg
+    rw [← fracSum_eq] at hle
+    rcases hm i hi with h1 | ⟨h0', _⟩
+    · rw [h1] at hle; exact hle
+    · rw [h0'] at hle; linarith
+
+theorem history_ideal_mixture_dist (w₀ : World) (hwf : WF w₀) (hgood : Amt.Good w₀) (h0 : w₀.recs = [])
+    (ops : List Op) (hops : ∀ op ∈ ops, C01D.traceableI (info w₀) w₀.cfg.dev op)
+    (hok : (w₀.run ops).2 = none) :
+    ∃ st, (RState.ofLabs w₀.labs).run w₀.cfg.dev (w₀.run ops).1.recs = some st
+      ∧ ∀ (l : Nat) (L : Labware), (w₀.run ops).1.labs[l]? = some L → ∀ i : Nat, i < L.vols.length →
+        ∃ (R : RLab) (wl : RWell), st.labs[l]? = some R ∧ R.wells[i]? = some wl ∧ wl.vol = L.vol i
+          ∧ ∀ k, amtOf wl.amts k = amount L i k := by
+  obtain ⟨⟨st, hrun, hM, hA⟩, _⟩ := C01D.replay_composition_dist w₀ hwf hgood h0 ops hops hok
   exact ⟨st, hrun, fun l L hL i hi => C01.amount_well hM hA l L hL i hi⟩
 
 /-- The hypothesis `Amt.Good` of the whole-history theorems is what the constructors establish: every
